@@ -34,10 +34,13 @@ package decoder
 //@ spec wsRun(b, lo, hi) := forall k :: lo <= k && k < hi ==> ws(b[k])
 //@ spec digitRun(b, lo, hi) := forall k :: lo <= k && k < hi ==> digit(b[k])
 // jsonIntTok: b[s:c) is -?(0|[1-9][0-9]*)
-//@ spec jsonIntTok(b, s, c) := s < c && (b[s] == '-' ? (s+1 < c && digitRun(b, s+1, c) && (b[s+1] == '0' ==> c == s+2)) : (digitRun(b, s, c) && (b[s] == '0' ==> c == s+1)))
+// tokChars: every byte of b[s:c) is a digit, except that the first may be '-' (parseInt's precondition on the token)
+//@ spec tokChars(b, s, c) := forall k :: 0 <= k && k < c - s ==> digit(b[s+k]) || (k == 0 && b[s] == '-')
+//@ spec jsonIntTok(b, s, c) := s < c && tokChars(b, s, c) && (b[s] == '-' ? (s+1 < c && (b[s+1] == '0' ==> c == s+2)) : (b[s] == '0' ==> c == s+1))
 // zeroTok: the token is 0 or -0; a digit after it is left for the caller to reject
 //@ spec zeroTok(b, s) := b[s] == '0' || (b[s] == '-' && b[s+1] == '0')
-//@ spec jsonUintTok(b, s, c) := s < c && digitRun(b, s, c) && (b[s] == '0' ==> c == s+1)
+//@ spec digitsAt(b, s, c) := forall k :: 0 <= k && k < c - s ==> digit(b[s+k])
+//@ spec jsonUintTok(b, s, c) := s < c && digitsAt(b, s, c) && (b[s] == '0' ==> c == s+1)
 // decvalN: Horner value of the first n (<= 20) digit bytes of s, for symbolic n
 //@ spec dvStep(s, n, k, acc) := k <= n ? acc*10 + (s[k-1]-48) : acc
 //@ spec decvalN(s, n) := dvStep(s,n,20, dvStep(s,n,19, dvStep(s,n,18, dvStep(s,n,17, dvStep(s,n,16, dvStep(s,n,15, dvStep(s,n,14, dvStep(s,n,13, dvStep(s,n,12, dvStep(s,n,11, dvStep(s,n,10, dvStep(s,n,9, dvStep(s,n,8, dvStep(s,n,7, dvStep(s,n,6, dvStep(s,n,5, dvStep(s,n,4, dvStep(s,n,3, dvStep(s,n,2, dvStep(s,n,1, 0))))))))))))))))))))
@@ -48,7 +51,7 @@ package decoder
 //@ func (*intDecoder).parseInt(d, b) (r, err)
 //@   props C16
 //@   requires len(b) >= 1
-//@   requires forall k :: 0 <= k && k < len(b) ==> digit(b[k]) || (k == 0 && b[0] == '-')
+//@   requires tokChars(b, 0, len(b))
 //@   ensures err == nil && b[0] == '-' ==> len(b) >= 2 && len(b) <= 20 && r == 0 - decvalN(b[1:], len(b)-1)
 //@   ensures err == nil && b[0] != '-' ==> len(b) <= 19 && r == decvalN(b, len(b))
 //@   assigns nothing
@@ -58,7 +61,7 @@ package decoder
 //@ func (*uintDecoder).parseUint(d, b) (r, err)
 //@   props C16
 //@   requires len(b) >= 1
-//@   requires forall k :: 0 <= k && k < len(b) ==> digit(b[k])
+//@   requires digitsAt(b, 0, len(b))
 //@   ensures err == nil ==> len(b) <= 20 && r == decvalN(b, len(b))
 //@   assigns nothing
 //@   loop 1: unroll 20
@@ -72,10 +75,11 @@ package decoder
 //@   ensures err == nil && res != nil ==> len(res) >= 1 && c - len(res) >= cursor && wsRun(buf, cursor, c - len(res))
 //@   ensures err == nil && res != nil ==> jsonIntTok(buf, c - len(res), c) && (digit(buf[c]) ==> zeroTok(buf, c - len(res)))
 //@   ensures err == nil && res != nil ==> ptrOf(res) == ptrOf(buf) + (c - len(res)) || (len(res) == 1 && res[0] == '0' && buf[c-1] == '0')
+//@   ensures err == nil && res != nil ==> tokChars(res, 0, len(res))
 //@   assigns nothing
 //@   loop 1: invariant old(cursor) <= cursor && cursor < len(buf) && wsRun(buf, old(cursor), cursor)
 //@   loop 1: decreases len(buf) - cursor
-//@   loop 2: invariant start < cursor && cursor < len(buf) && digitRun(buf, start+1, cursor)
+//@   loop 2: invariant start < cursor && cursor < len(buf) && tokChars(buf, start, cursor)
 //@   loop 2: decreases len(buf) - cursor
 
 //@ func (*intDecoder).Decode(d, ctx, cursor, depth, p) (c, err)
@@ -85,5 +89,34 @@ package decoder
 //@   ensures err == nil ==> cursor < c && c < len(old(ctx.Buf))
 //@   ensures err == nil ==> ncalls("intDecoder.op") == old(ncalls("intDecoder.op")) || ncalls("intDecoder.op") == old(ncalls("intDecoder.op")) + 1
 //@   ensures err == nil && ncalls("intDecoder.op") != old(ncalls("intDecoder.op")) ==> callarg("intDecoder.op", 1) == p && fitsInt(callarg("intDecoder.op", 2), old(d.kind))
-//@   ensures err == nil && ncalls("intDecoder.op") != old(ncalls("intDecoder.op")) ==> exists s :: cursor <= s && s < c && old(wsRun(ctx.Buf, cursor, s) && jsonIntTok(ctx.Buf, s, c)) && callarg("intDecoder.op", 2) == old(intvalOf(ctx.Buf[s:c]))
+//@   ghost s := cursor - len(bytes)
+//@   ensures err == nil && ncalls("intDecoder.op") != old(ncalls("intDecoder.op")) ==> cursor <= s && s < c && old(wsRun(ctx.Buf, cursor, s) && jsonIntTok(ctx.Buf, s, c))
+//@   ensures err == nil && ncalls("intDecoder.op") != old(ncalls("intDecoder.op")) ==> callarg("intDecoder.op", 2) == old(intvalOf(ctx.Buf[s:c]))
+//@   assigns all
+
+//@ func (*uintDecoder).decodeByte(d, buf, cursor) (res, c, err)
+//@   props C16 C05 C06
+//@   requires d != nil && bufOK(buf, cursor)
+//@   ensures err == nil ==> cursor < c && c < len(buf)
+//@   ensures err == nil && res == nil ==> c >= cursor+4 && wsRun(buf, cursor, c-4) && buf[c-4] == 'n' && buf[c-3] == 'u' && buf[c-2] == 'l' && buf[c-1] == 'l'
+//@   ensures err == nil && res != nil ==> len(res) >= 1 && c - len(res) >= cursor && wsRun(buf, cursor, c - len(res))
+//@   ensures err == nil && res != nil ==> jsonUintTok(buf, c - len(res), c) && (digit(buf[c]) ==> buf[c - len(res)] == '0')
+//@   ensures err == nil && res != nil ==> ptrOf(res) == ptrOf(buf) + (c - len(res)) || (len(res) == 1 && res[0] == '0' && buf[c-1] == '0')
+//@   ensures err == nil && res != nil ==> digitsAt(res, 0, len(res))
+//@   assigns nothing
+//@   loop 1: invariant old(cursor) <= cursor && cursor < len(buf) && wsRun(buf, old(cursor), cursor)
+//@   loop 1: decreases len(buf) - cursor
+//@   loop 2: invariant start < cursor && cursor < len(buf) && digitsAt(buf, start, cursor)
+//@   loop 2: decreases len(buf) - cursor
+
+//@ func (*uintDecoder).Decode(d, ctx, cursor, depth, p) (c, err)
+//@   props C16 C06
+//@   requires d != nil && ctx != nil && bufOK(ctx.Buf, cursor)
+//@   ensures err != nil ==> ncalls("uintDecoder.op") == old(ncalls("uintDecoder.op"))
+//@   ensures err == nil ==> cursor < c && c < len(old(ctx.Buf))
+//@   ensures err == nil ==> ncalls("uintDecoder.op") == old(ncalls("uintDecoder.op")) || ncalls("uintDecoder.op") == old(ncalls("uintDecoder.op")) + 1
+//@   ensures err == nil && ncalls("uintDecoder.op") != old(ncalls("uintDecoder.op")) ==> callarg("uintDecoder.op", 1) == p && fitsUint(callarg("uintDecoder.op", 2), old(d.kind))
+//@   ghost s := cursor - len(bytes)
+//@   ensures err == nil && ncalls("uintDecoder.op") != old(ncalls("uintDecoder.op")) ==> cursor <= s && s < c && old(wsRun(ctx.Buf, cursor, s) && jsonUintTok(ctx.Buf, s, c))
+//@   ensures err == nil && ncalls("uintDecoder.op") != old(ncalls("uintDecoder.op")) ==> callarg("uintDecoder.op", 2) == old(decvalN(ctx.Buf[s:c], c - s))
 //@   assigns all
